@@ -22,10 +22,12 @@ structure Deliv where
   r : Wire.Rec
   deriving Repr, Inhabited
 
-def deliveries (iters : List Iter) (d : Nat) : List Deliv :=
+def deliveriesOn (links : Option (List (Nat × Bool))) (iters : List Iter) (d : Nat) : List Deliv :=
   iters.zipIdx.flatMap fun ((it, k) : Iter × Nat) =>
     if it.d != d then [] else
-    it.rx.flatMap fun ((ifi, _, _, b) : Nat × Bool × String × BList) =>
+    it.rx.flatMap fun ((ifi, v4, _, b) : Nat × Bool × String × BList) =>
+      -- a datagram on an interface / family the daemon does not have is dropped by handle_read
+      if (links.map fun l => !l.contains (ifi, v4)).getD false then [] else
       match Wire.decode b.toArray with
       | .ok m =>
         if m.flags / 32768 % 2 == 1 then
@@ -33,6 +35,16 @@ def deliveries (iters : List Iter) (d : Nat) : List Deliv :=
           (m.answers ++ m.authorities ++ m.additionals).map fun r => { k, t := it.now, ifi, ptrAnswers := ptrs, r }
         else []
       | _ => []
+
+/-- (interface index, family) pairs of daemon `d` according to the script's `daemon` commands
+    (`none` if the script changes interface tables later: then nothing is filtered) -/
+def linksOf (script : List Cmd) (d : Nat) : Option (List (Nat × Bool)) :=
+  if script.any (fun c => match c with | .ifaces .. => true | _ => false) then none
+  else
+    ((script.filterMap fun c => match c with | .daemon ifs => some ifs | _ => none)[d]?).map
+      fun ifs => ifs.map fun i => (i.index, i.v4)
+
+def deliveries (iters : List Iter) (d : Nat) : List Deliv := deliveriesOn none iters d
 
 /-- the same record: owner (any letter case), type, class, RDATA - and the cache-flush bit,
     because the daemon keeps a copy received with the bit and one received without it as
@@ -101,6 +113,9 @@ def parseResolved (toks : List String) : Option Resolved :=
     pure { ty, fullname, host, port, addrs, props }
   | _ => none
 
+/-- the instance a `resolved` event is about (the subtype token shifts positions) -/
+def resolvedName (toks : List String) : Option BList := (parseResolved toks).map (·.fullname)
+
 def ipOf (r : Wire.Rec) : Option BList :=
   match r.rdata with
   | .a ip | .aaaa ip => some ip
@@ -110,8 +125,8 @@ def ipOf (r : Wire.Rec) : Option BList :=
 
 /-- `ok_C03`: every ServiceResolved event of daemon `d` is built from records that were
     delivered to it and are still usable at the time of the event. -/
-def monitorC03 (iters : List Iter) (d : Nat) : Option String :=
-  let ds := deliveries iters d
+def monitorC03 (script : List Cmd) (iters : List Iter) (d : Nat) : Option String :=
+  let ds := deliveriesOn (linksOf script d) iters d
   iters.zipIdx.findSome? fun ((it, k) : Iter × Nat) =>
     if it.d != d then none else
     it.evs.findSome? fun ((_, toks) : Nat × List String) =>
@@ -156,7 +171,7 @@ def forUs (browsed : List BList) (x : Deliv) : Bool :=
 /-- `ok_C04` on loss-free scripted histories of daemon `d`: completeness at every
     iteration boundary for the FIRST browse of each type, and the three follow-up queries. -/
 def monitorC04 (script : List Cmd) (iters : List Iter) (d : Nat) : Option String :=
-  let ds := deliveries iters d
+  let ds := deliveriesOn (linksOf script d) iters d
   let calls := processedCalls script iters cmdDaemon
   let itArr := iters.toArray
   let browses := calls.filterMap fun ((c, k0) : Cmd × Nat) =>
@@ -191,7 +206,7 @@ def monitorC04 (script : List Cmd) (iters : List Iter) (d : Nat) : Option String
         if srvs.isEmpty || !txtLive || !addrLive then none
         else
           let found := evs.any fun e => e.1 ≤ k && e.2.headD "" == "found" && e.2[2]? == some (hexOfBytes f)
-          let resolved := evs.any fun e => e.1 ≤ k && e.2.headD "" == "resolved" && e.2[3]? == some (hexOfBytes f)
+          let resolved := evs.any fun e => e.1 ≤ k && resolvedName e.2 == some f
           -- known finding D24: an instance whose PTR is first seen as a goodbye (TTL 0/1)
           let goodbyeFirst := ((ds.find? fun x => x.r.ty == 12 && (match x.r.rdata with | .ptr g => g == f | _ => false)).map
             fun x => decide (x.r.ttl ≤ 1)).getD false
@@ -204,7 +219,7 @@ def monitorC04 (script : List Cmd) (iters : List Iter) (d : Nat) : Option String
     delivered before nor within the next 1.6 s, and stays usable: the daemon asks `ANY inst`
     at +500, +1000 and +1500 ms (event-driven run: exactly) -/
 def monitorC04Followups (script : List Cmd) (iters : List Iter) (d : Nat) : Option String :=
-  let ds := deliveries iters d
+  let ds := deliveriesOn (linksOf script d) iters d
   let calls := processedCalls script iters cmdDaemon
   let browses := calls.filterMap fun ((c, k0) : Cmd × Nat) =>
     match c with | .browse d' _ ty false => if d' == d then some (ty, k0) else none | _ => none
@@ -232,7 +247,7 @@ def monitorC04Followups (script : List Cmd) (iters : List Iter) (d : Nat) : Opti
 
 /-- `ok_C05`: removals only when true, on time after a goodbye / PTR expiry, quiet afterwards. -/
 def monitorC05 (script : List Cmd) (iters : List Iter) (d : Nat) : Option String :=
-  let ds := deliveries iters d
+  let ds := deliveriesOn (linksOf script d) iters d
   let calls := processedCalls script iters cmdDaemon
   let itArr := iters.toArray
   let verified := calls.any fun ((c, _) : Cmd × Nat) => match c with | .verify d' .. => d' == d | _ => false
@@ -297,7 +312,7 @@ def monitorC05 (script : List Cmd) (iters : List Iter) (d : Nat) : Option String
     it.evs.findSome? fun ((ch, toks) : Nat × List String) =>
       match toks with
       | ["removed", _, instH] =>
-        let later := (chanEvents iters d ch).find? fun e => e.1 > k && e.2.headD "" == "resolved" && e.2[3]? == some instH
+        let later := (chanEvents iters d ch).find? fun e => e.1 > k && (resolvedName e.2).map hexOfBytes == some instH
         match later with
         | none => none
         | some e =>
@@ -321,7 +336,7 @@ def parseAddrsEvent (toks : List String) : Option (String × BList × List AddrT
     records are no longer usable; an address reported and then expiring while the search is
     open is reported removed at its expiry. -/
 def monitorC17 (script : List Cmd) (iters : List Iter) (d : Nat) : Option String :=
-  let ds := deliveries iters d
+  let ds := deliveriesOn (linksOf script d) iters d
   let itArr := iters.toArray
   iters.zipIdx.findSome? fun ((it, k) : Iter × Nat) =>
     if it.d != d then none else
@@ -363,7 +378,7 @@ def metricOf (toks : List String) (key : String) : Nat :=
     ended and every delivered record's life is over, the daemon reports no cached record
     and no timer beyond the periodic interface check. -/
 def monitorC20 (script : List Cmd) (iters : List Iter) (d : Nat) : Option String :=
-  let ds := deliveries iters d
+  let ds := deliveriesOn (linksOf script d) iters d
   let calls := processedCalls script iters cmdDaemon
   iters.zipIdx.findSome? fun ((it, k) : Iter × Nat) =>
     if it.d != d then none else
@@ -404,7 +419,7 @@ def monitorC20 (script : List Cmd) (iters : List Iter) (d : Nat) : Option String
     PTRs of browsed types, SRV/TXT of the instances they point to, addresses of the hosts
     of those SRVs and of resolved host names. -/
 def monitorC20Unrequested (script : List Cmd) (iters : List Iter) (d : Nat) : Option String :=
-  let ds := deliveries iters d
+  let ds := deliveriesOn (linksOf script d) iters d
   let calls := processedCalls script iters cmdDaemon
   let browsed := calls.filterMap fun ((c, _) : Cmd × Nat) =>
     match c with | .browse d' _ ty _ => if d' == d then some ty else none | _ => none
